@@ -685,7 +685,7 @@ func c12HermRandom(c *vh.Ctx) c12HermCase {
 			}
 		}
 	} else {
-		for _, k := range r.Perm(len(c12HermEnvs))[:4] {
+		for _, k := range r.Perm(len(c12HermEnvs))[:3] {
 			if e := c12HermEnvs[k]; e != cs.Envs[0] {
 				cs.Envs = append(cs.Envs, e)
 			}
@@ -701,7 +701,7 @@ func runC12Herm(c *vh.Ctx, replay *c12HermCase) {
 	} else {
 		cases = c12HermCorpus()
 		nCorpus := len(cases)
-		for i, n := 0, c.N(400, 6000); i < n; i++ {
+		for i, n := 0, c.N(300, 6000); i < n; i++ {
 			cases = append(cases, c12HermRandom(c))
 		}
 		c.Note(fmt.Sprintf("stream herm: %d systematic cases (file-touching form x %d OpenFile answer kinds x BEGIN/rule/END, each in %d host environments), %d generated",
